@@ -103,6 +103,9 @@ PROPERTIES = {
         "rule": "suites token, parse, tokens, buf, slice, prefix, conv as for C03, C02, C04, C11, C12, C13, C18; non-trivial and distinct per suite as there",
     },
     "C05": {
+        "regen": {"groups": ["Tree", "Token", "PtrOps", "Slice", "Index"]},
+        "technique": REGEN_TECHNIQUE,
+        "level_suffix": regen_note("the four walks Resolve / ResolveMut for serde_json::Value and toml::Value, the helper parse_index, resolve::Error's accessors and Diagnostic::labels (src/resolve.rs); Token::to_index is the hand-written index_from_str"),
         "runs": [{"suite": "tree", "filter": tree_ops("R", "M", "N")}],
         "level_text": "Proved in Coq for every document, every valid pointer: the transliterated fuelled split_front walk equals spec_resolve, structural recursion on the token list (objects by the decoded token, arrays by a canonical "
                       "index < length), never Panic/OutOfFuel; the result carries the selector path of the node with get_at path D = Some v (that very node, not a copy); for every well-formed document every node is resolved by the "
@@ -111,6 +114,9 @@ PROPERTIES = {
         "rule": TREE_RULE + "; for C05 the resolve / resolve_mut / every-node cases",
     },
     "C06": {
+        "regen": {"groups": ["Tree", "Token", "PtrOps", "Slice", "Index"]},
+        "technique": REGEN_TECHNIQUE + " (the regenerated part is `expand`; assign_value / assign_array / assign_object / assign_scalar mutate through &mut and are modelled by hand)",
+        "level_suffix": regen_note("json::expand and toml::expand (src/assign.rs): which tokens materialise an array, which an object keyed by the DECODED token"),
         "runs": [{"suite": "tree", "filter": tree_ops("A")}],
         "level_text": "Proved in Coq for every document, valid pointer and value: assign = spec_assign on the token list and expand (a fold from the back via split_back) = materialise (recursion from the front); one theorem per clause "
                       "(root, existing element/member, append at length or '-', missing member, scalar in the path, the two errors) and the iff 'the only failures are a non-index token or an index > length on an existing array'; "
@@ -132,6 +138,9 @@ PROPERTIES = {
         "rule": TREE_RULE + "; for C08 the delete cases",
     },
     "C09": {
+        "regen": {"groups": ["Tree", "Token", "PtrOps", "Slice", "Index"]},
+        "technique": REGEN_TECHNIQUE + " (assign / delete: hand-written model + per-copy differential tie only)",
+        "level_suffix": regen_note("the json and toml copies of resolve and resolve_mut (src/resolve.rs): the four regenerated walks are proved to agree on every document and pointer; json / toml expand (src/assign.rs)"),
         "runs": [{"suite": "tree"}, {"suite": "hist"}],
         "level_text": "MOSTLY TIE (DESIGN 6/C09): the model has one transliteration per walk over a common value type, so backend agreement is true by construction there; the assurance is that EACH of the eight Rust functions "
                       "(resolve/resolve_mut/assign/delete x serde_json/toml) is compared per case against the model on both backends, and the harness runs every common-domain case through both value types and compares outcomes directly. "
@@ -147,6 +156,9 @@ PROPERTIES = {
                 "every-node sweep; seeded random histories up to 16 steps over random documents; non-trivial = at least two steps; distinct = distinct case lines",
     },
     "C15": {
+        "regen": {"groups": ["Tree", "Token", "PtrOps", "Slice", "Index"]},
+        "technique": REGEN_TECHNIQUE,
+        "level_suffix": regen_note("the offset / position accessors and Diagnostic::labels of resolve::Error and assign::Error, and the four resolve walks that produce the positions (src/resolve.rs, src/assign.rs)"),
         "runs": [{"suite": "tree", "filter": tree_ops("R", "M", "A", "W")}],
         "level_text": "Proved in Coq for resolve, resolve_mut (through a write) and assign: on failure position = number of tokens consumed (a token index of p), offset = sum of 1 + encoded length over the preceding tokens, the byte "
                       "at offset is '/', get(position) is the culprit, split_at(offset) cuts directly before it; out-of-bounds carries (requested index with '-' as length, actual length), parse errors carry the reason for the "
@@ -185,6 +197,9 @@ PROPERTIES = {
         "trusted_extra": ["cargo + rustc 1.95 (the judge of 'compiles' on all 256 subsets); tools/featgen.py only for the explanatory theorem, not for the verdict"],
     },
     "C11": {
+        "regen": {"groups": ["Buf", "Token", "PtrOps"]},
+        "technique": REGEN_TECHNIQUE,
+        "level_suffix": regen_note("PointerBuf::push_front, push_back, pop_back, pop_front, append, clear (src/pointer.rs; replace and from_tokens are modelled by hand only)"),
         "runs": [{"suite": "buf"}],
         "level_text": "Proved in Coq for every valid start pointer and every finite history of the seven mutators with arbitrary arguments (indices over all of N): the implementation-level models splice bytes as the code does "
                       "(insert at 0, rfind+split_off+pop, find in [1..]+split_off+mem::replace, collect-and-rebuild, root-aware append); one-step refinement for each mutator gives new text = from_tokens(deque after), "
